@@ -767,46 +767,86 @@ theorem FInv.write {opts : Opts} {d : Decls} {defs : Defs} {nodes : List AstNode
     · exact h
     · exact absurd h1 hne
 
+theorem FInv.step_def {opts : Opts} {d : Decls} {x : Defs} {nodes : List AstNode} (fx : FInv opts d x nodes) (sx : SlotsOK x nodes)
+    (lv : Nat) (nm : String) (e : Expr) (ne : Bool) (r : Nat) (dv : String × Value)
+    (hn : AstNode.symbol lv nm (.constant e) ne (some r) ∈ nodes)
+    (hfind : opts.defines.find? (·.1 == (d.symbols.decls.getD r default).name) = some dv) :
+    FInv opts d (x.setSym r { x.sym r with value := dv.2, resolved := true }) nodes ∧
+      SlotsOK (x.setSym r { x.sym r with value := dv.2, resolved := true }) nodes := by
+  have hslot := sx _ hn r rfl
+  refine fx.write sx lv nm e ne r hn _ ?_
+  have hni := fx.ni _ hn
+  simp only [NI] at hni ⊢
+  rw [sym_setSym_self x r _ hslot, slot_setSym x r r _ hslot]
+  refine ⟨hni.1, fun _ _ hnd => ?_⟩
+  unfold notDefined at hnd
+  rw [hfind] at hnd
+  cases hnd
+
+theorem FInv.step_ev {opts : Opts} {d : Decls} {x : Defs} {nodes : List AstNode} (fx : FInv opts d x nodes) (sx : SlotsOK x nodes)
+    (lv : Nat) (nm : String) (e : Expr) (ne : Bool) (r : Nat) (v : Value)
+    (hn : AstNode.symbol lv nm (.constant e) ne (some r) ∈ nodes) (hres : (x.sym r).resolved = false)
+    (hev : evalSimple d x e = .ok v) :
+    FInv opts d (x.setSym r (writeOf opts (x.sym r) v)) nodes ∧ SlotsOK (x.setSym r (writeOf opts (x.sym r) v)) nodes := by
+  have hslot := sx _ hn r rfl
+  refine fx.write sx lv nm e ne r hn _ ?_
+  have hni := fx.ni _ hn
+  simp only [NI] at hni ⊢
+  rw [sym_setSym_self x r _ hslot, slot_setSym x r r _ hslot]
+  have hkn : (writeOf opts (x.sym r) v).known = (x.sym r).known := by
+    unfold writeOf; split <;> (try split) <;> rfl
+  refine ⟨fun hsl => by rw [hkn]; exact hni.1 hsl, fun hr hk _ => ?_⟩
+  rw [hkn] at hk
+  unfold writeOf at hr ⊢
+  split at hr
+  · simp only at hr; rw [hres] at hr; cases hr
+  · rename_i hnu
+    split at hr
+    · rename_i hc
+      simp only [hc, if_true]
+      have hpure : staticallyKnown pureP e = true := by rw [← hni.1 hslot]; exact hk
+      refine ⟨fun hu => hnu (by simpa using hu), fun d' defs'' => ?_⟩
+      rw [evalSimple_indep d d' x defs'' e hpure]; exact hev
+    · simp only at hr; rw [hres] at hr; cases hr
+
 /-- **`resolve_constants_simple` keeps the slot facts** -/
 theorem FInv.consts {opts : Opts} {d : Decls} {defs defs' : Defs} {nodes : List AstNode} {c : Nat}
     (f : FInv opts d defs nodes) (hs : SlotsOK defs nodes)
     (h : resolveConstantsSimple opts d defs nodes = .ok (defs', c)) : FInv opts d defs' nodes ∧ SlotsOK defs' nodes := by
   refine resolveConstantsSimple_ind opts d nodes (fun x => FInv opts d x nodes ∧ SlotsOK x nodes) ?_ ?_ nodes (fun _ hn => hn)
     defs defs' c ⟨f, hs⟩ h
-  · intro x lv nm e ne r dv hn hp hres hfind
-    obtain ⟨fx, sx⟩ := hp
-    have hslot := sx _ hn r rfl
-    refine fx.write sx lv nm e ne r hn _ ?_
-    have hni := fx.ni _ hn
-    simp only [NI] at hni ⊢
-    rw [sym_setSym_self x r _ hslot, slot_setSym x r r _ hslot]
-    refine ⟨hni.1, fun _ _ hnd => ?_⟩
-    unfold notDefined at hnd
-    rw [hfind] at hnd
-    cases hnd
-  · intro x lv nm e ne r v hn hp hres hfind hev
-    obtain ⟨fx, sx⟩ := hp
-    have hslot := sx _ hn r rfl
-    refine fx.write sx lv nm e ne r hn _ ?_
-    have hni := fx.ni _ hn
-    simp only [NI] at hni ⊢
-    rw [sym_setSym_self x r _ hslot, slot_setSym x r r _ hslot]
-    have hkn : (writeOf opts (x.sym r) v).known = (x.sym r).known := by
-      unfold writeOf; split <;> (try split) <;> rfl
-    refine ⟨fun hsl => by rw [hkn]; exact hni.1 hsl, fun hr hk _ => ?_⟩
-    rw [hkn] at hk
-    -- the mark was set by this write: the value is definite and the expression statically known
-    unfold writeOf at hr ⊢
-    split at hr
-    · simp only at hr; rw [hres] at hr; cases hr
-    · rename_i hnu
-      split at hr
-      · rename_i hc
-        simp only [hc, if_true]
-        have hpure : staticallyKnown pureP e = true := by rw [← hni.1 hslot]; exact hk
-        refine ⟨fun hu => hnu (by simpa using hu), fun d' defs'' => ?_⟩
-        rw [evalSimple_indep d d' x defs'' e hpure]; exact hev
-      · simp only at hr; rw [hres] at hr; cases hr
+  · intro x lv nm e ne r dv hn hp _ hfind
+    exact hp.1.step_def hp.2 lv nm e ne r dv hn hfind
+  · intro x lv nm e ne r v hn hp hres _ hev
+    exact hp.1.step_ev hp.2 lv nm e ne r v hn hres hev
+
+/-- the step function of `resolve_constants_simple` -/
+def constStep (opts : Opts) (d : Decls) (acc : Except String (Defs × Nat)) (n : AstNode) : Except String (Defs × Nat) :=
+  match acc with
+  | .error e => .error e
+  | .ok (defs, count) =>
+    match n with
+    | .symbol _ _ (.constant e) _ (some r) =>
+      let s := defs.sym r
+      if s.resolved then .ok (defs, count + 1)
+      else
+        let fullName := (d.symbols.decls.getD r default).name
+        match opts.defines.find? (·.1 == fullName) with
+        | some dv => .ok (defs.setSym r { s with value := dv.2, resolved := true }, count + 1)
+        | none =>
+          match evalSimple d defs e with
+          | .error m => .error m
+          | .ok v =>
+            let s' := { s with value := v }
+            match v with
+            | .unknown => .ok (defs.setSym r s', count)
+            | _ =>
+              if opts.optStatic && s.known then .ok (defs.setSym r { s' with resolved := true }, count + 1)
+              else .ok (defs.setSym r s', count + 1)
+    | _ => .ok (defs, count)
+
+theorem resolveConstantsSimple_eq (opts : Opts) (d : Decls) (defs : Defs) (l : List AstNode) :
+    resolveConstantsSimple opts d defs l = l.foldl (constStep opts d) (.ok (defs, 0)) := rfl
 
 theorem resolveIfs_refSub (d : Decls) (defs : Defs) (nodes out : List AstNode) (k : Nat)
     (h : resolveIfs d defs nodes = .ok (out, k)) : RefSub out nodes := by
